@@ -19,6 +19,7 @@ pub enum MulticastError {
 }
 
 #[cfg(feature = "proto-ipv4")]
+#[cfg_attr(feature = "_verif", derive(Debug))]
 pub(crate) enum IgmpReportState {
     Inactive,
     ToGeneralQuery {
@@ -35,6 +36,7 @@ pub(crate) enum IgmpReportState {
 }
 
 #[cfg(feature = "proto-ipv6")]
+#[cfg_attr(feature = "_verif", derive(Debug))]
 pub(crate) enum MldReportState {
     Inactive,
     ToGeneralQuery {
@@ -63,6 +65,17 @@ pub(crate) struct State {
     igmp_report_state: IgmpReportState,
     #[cfg(feature = "proto-ipv6")]
     mld_report_state: MldReportState,
+}
+
+#[cfg(feature = "_verif")]
+impl State {
+    /// Verification hook: textual image of the multicast state.
+    pub(crate) fn verif_digest(&self) -> alloc::string::String {
+        alloc::format!(
+            "groups={:?} igmp={:?} mld={:?}",
+            self.groups, self.igmp_report_state, self.mld_report_state
+        )
+    }
 }
 
 impl State {
